@@ -204,6 +204,14 @@ Definition cvs_heap_inplace (h : heap) (a : nat) (ds : dataset) (splits : list (
 Definition serial_events (n : nat) : list event := flat_map (fun k => [EFit k; EScore k]) (seq 0 n).
 End Heap.
 
+(** a schedule respects the only dependency inside a task: split k is scored after it was fitted *)
+Fixpoint fit_before_score (fitted : list nat) (evs : list event) : Prop :=
+  match evs with
+  | [] => True
+  | EFit k :: t => fit_before_score (k :: fitted) t
+  | EScore k :: t => In k fitted /\ fit_before_score fitted t
+  end.
+
 (** ** train_test_split: ONE split applied with [select] to coordinates, data and weights *)
 Definition train_test_split (split : list nat * list nat) (ds : dataset) : dataset * dataset :=
   (select_ds (fst split) ds, select_ds (snd split) ds).
